@@ -22,6 +22,7 @@ import (
 	"sort"
 	"strings"
 	"sync"
+	"sync/atomic"
 	"syscall"
 	"time"
 
@@ -123,7 +124,25 @@ func worker(o *common.Opts, cfg propCfg) {
 	}
 	out := workerOut{Tuples: map[string]int{}}
 	seenSig := map[string]bool{}
+	// a program that makes no progress for a minute hangs (blocking pops wait a few seconds at most): dump the
+	// goroutines and end the batch at once instead of waiting for the batch limit
+	var progress atomic.Int64
+	go func() {
+		last, since := int64(-1), time.Now()
+		for {
+			time.Sleep(time.Second)
+			if p := progress.Load(); p != last {
+				last, since = p, time.Now()
+			} else if time.Since(since) > 60*time.Second {
+				buf := make([]byte, 4<<20)
+				buf = buf[:runtime.Stack(buf, true)]
+				os.Stderr.Write(buf)
+				os.Exit(7)
+			}
+		}
+	}()
 	for idx := *fFrom; idx < *fTo; idx++ {
+		progress.Add(1)
 		prog := gen.Program(progRand(o.Seed, idx), cfg.family, cfg.maxSteps)
 		divs, st := seqrun.Run(prog, seqrun.Opts{Journal: j, Prog: idx, Strict: *fProp == "C03"})
 		out.Progs++
@@ -301,6 +320,9 @@ func main() {
 			go func() { done <- cmd.Wait() }()
 			select {
 			case b.err = <-done:
+				if ee, ok := b.err.(*exec.ExitError); ok && ee.ExitCode() == 7 {
+					b.timedOut = true // the worker's own watchdog: a program stopped making progress
+				}
 			case <-time.After(limit):
 				b.timedOut = true
 				_ = cmd.Process.Signal(syscall.SIGQUIT)
